@@ -455,7 +455,7 @@ def merge_stats(a, b):
     return a
 
 
-def engine_run(prop, engine, seed, ncases, tier, with_model=True, shard_size=None):
+def engine_run(prop, engine, seed, ncases, tier, with_model=True, shard_size=None, profile=None):
     """Corpus first, then generated cases (sharded). Returns an aggregate result dict."""
     from concurrent.futures import ThreadPoolExecutor
     agg = {"evaluations": 0, "ops": 0, "disagree": [], "monitors": [], "gen_stats": {}, "run_stats": {},
@@ -475,7 +475,7 @@ def engine_run(prop, engine, seed, ncases, tier, with_model=True, shard_size=Non
 
     def do_shard(s):
         first, n = s
-        ops, gst = gen_ops(engine, prop, seed, first, n, tier)
+        ops, gst = gen_ops(engine, profile or prop, seed, first, n, tier)
         if ops is None:
             return ("gen", None, gst, None)
         return ("gen", ops, gst, compare(engine, ops, prop, with_model))
@@ -587,7 +587,7 @@ def check(prop, tier, seed, replay=None):
             proof_ok = False
             broken.append({"file": "leanchecker", "line": 0, "theorem": None, "message": (lo + le)[-300:]})
     # 4. harness
-    rcc, cargo_log = cargo_build([e["name"] for e in spec["engines"]])
+    rcc, cargo_log = cargo_build(sorted({e["name"] for e in spec["engines"]}))
     if rcc != 0:
         log(cargo_log)
         verdict["violations"].append(("harness-build", "the harness does not build against /repo: " + cargo_log[-600:], None))
@@ -620,10 +620,10 @@ def check(prop, tier, seed, replay=None):
             for e in spec["engines"]:
                 n = e[tier]
                 etier = tier
-                agg = engine_run(prop, e["name"], seed, n, etier, with_model=drv_ok and e.get("model", True))
+                agg = engine_run(prop, e["name"], seed, n, etier, with_model=drv_ok and e.get("model", True), profile=e.get("profile"))
                 if (agg["disagree"] or escalate) and not agg["monitors"] and tier == "quick":
                     # search for a concrete failing input with the thorough generator
-                    agg2 = engine_run(prop, e["name"], seed + 1, e["thorough"], "thorough", with_model=drv_ok and e.get("model", True))
+                    agg2 = engine_run(prop, e["name"], seed + 1, e["thorough"], "thorough", with_model=drv_ok and e.get("model", True), profile=e.get("profile"))
                     agg["monitors"] += agg2["monitors"]
                     agg["disagree"] += agg2["disagree"]
                     agg["evaluations"] += agg2["evaluations"]
@@ -633,7 +633,7 @@ def check(prop, tier, seed, replay=None):
                     verdict["notes"].append("escalated %s to the thorough generator to search for a failing input" % e["name"])
                 total_eval += agg["evaluations"]
                 total_ops += agg["ops"]
-                coverage_stats[e["name"]] = {"gen": agg["gen_stats"], "run": agg["run_stats"],
+                coverage_stats[e["name"] + ("/" + e["profile"] if e.get("profile") else "")] = {"gen": agg["gen_stats"], "run": agg["run_stats"],
                                              "corpus_cases": agg["corpus_cases"], "errkind_diffs": agg["errkind_diffs"]}
                 samples += agg["samples"]
                 for f in agg["fatal"]:
